@@ -9,7 +9,10 @@ use octo_squirrel::protocol::socks5::Socks5CommandStatus;
 use octo_squirrel::protocol::socks5::message::Socks5CommandResponse;
 use tokio::io::AsyncReadExt;
 use tokio::io::AsyncWriteExt;
+#[cfg(not(octo_squirrel_verif))]
 use tokio::net::TcpStream;
+#[cfg(octo_squirrel_verif)]
+use octo_squirrel::verif::net::TcpStream;
 
 pub enum Proxy {
     Http(Address),
